@@ -80,8 +80,9 @@ impl Header {
             + version_bytes.len()
             + self.version.header_len_bytes_len()
             + fmt_dict.len();
-        let rem = len % ALIGN;
-        let pad_len = if rem == 0 { 0 } else { ALIGN - rem };
+        // The padding always holds at least the terminating newline, so an already aligned
+        // length is padded by a whole block rather than by nothing
+        let pad_len = ALIGN - len % ALIGN;
         assert_eq!((len + pad_len) % ALIGN, 0);
 
         let header_len = fmt_dict.len() + pad_len;
